@@ -187,10 +187,12 @@ Call(t, o) ==
             /\ \A u \in Workers : pc[u] = "done"
        ELSE /\ nops[t] < MaxOps
             /\ o.k \notin OwnerOnly
-  /\ o.k = "bnew" => buf[t][o.it] = 0
-  /\ o.k = "bdrop" => buf[t][o.it] > 0
+  /\ t # 0 => (o.k = "bnew" => buf[t][o.it] = 0) /\ (o.k = "bdrop" => buf[t][o.it] > 0)
+  /\ t = 0 => o.k \notin {"bnew", "bnext", "bdrop"}
   /\ o.k \in OwnerOnly => \A i \in Its : buf[0][i] = 0   \* borrows end before the iterator is consumed
-  /\ CallBody(t, o)
+  /\ IF t = 0
+       THEN \E i \in alive : CallBody(t, [o EXCEPT !.it = i])    \* the owner works on any of its iterators / clones
+       ELSE CallBody(t, o)
 
 ReqSize(t) ==
   CASE op[t].k \in {"next", "nextid", "values", "idsvalues"} -> 1
